@@ -50,7 +50,8 @@ def _build(r, ctx):
     if op == "ConstantDiag":
         return O.ConstantDiagLinearOperator(_mat(r["c"], ctx), diag_shape=r["n"])
     if op == "Identity":
-        return O.IdentityLinearOperator(r["n"], batch_shape=torch.Size(r["batch"]), dtype=TORCH_DT[r["dt"]])
+        # (device given explicitly: the default device=None makes `.device` None, which e.g. cat() compares)
+        return O.IdentityLinearOperator(r["n"], batch_shape=torch.Size(r["batch"]), dtype=TORCH_DT[r["dt"]], device=torch.device("cpu"))
     if op == "Zero":
         return O.ZeroLinearOperator(*r["sizes"], dtype=TORCH_DT[r["dt"]])
     if op == "Toeplitz":
@@ -98,7 +99,7 @@ def _build(r, ctx):
     if op == "BatchRepeat":
         return O.BatchRepeatLinearOperator(b(r["base"]), batch_repeat=torch.Size(r["repeat"]))
     if op == "Cat":
-        return O.CatLinearOperator(*[b(a) for a in r["args"]], dim=r["dim"])
+        return O.CatLinearOperator(*[b(a) for a in r["args"]], dim=r["dim"], output_device=torch.device("cpu"))
     if op == "Interpolated":
         return O.InterpolatedLinearOperator(
             b(r["base"]), _mat(r["li"], ctx), _mat(r["lv"], ctx), _mat(r["ri"], ctx), _mat(r["rv"], ctx)
